@@ -1,6 +1,7 @@
-// C18: drives the real services/cache/standard.Service through histories of block events,
-// lookups (hits, misses, failing fetches) and cleaning runs, and prints each history with the
-// observed outputs as a Gallina case for Check.C18.
+// C18: drives the real services/cache/standard.Service through histories of block events, head
+// events, lookups (hits, misses, failing fetches), groups of OVERLAPPING lookups (goroutines inside
+// the synctest bubble, the header provider answering after a fake delay) and cleaning runs, and
+// prints each history with the observed outputs as a Gallina case for Check.C18.
 package c18
 
 import (
@@ -8,12 +9,14 @@ import (
 	"errors"
 	"fmt"
 	"sort"
+	"sync"
 	"testing"
+	"testing/synctest"
+	"time"
 
 	"github.com/attestantio/go-eth2-client/api"
 	apiv1 "github.com/attestantio/go-eth2-client/api/v1"
 	"github.com/attestantio/go-eth2-client/spec/phase0"
-	"github.com/attestantio/vouch/mock"
 	standardcache "github.com/attestantio/vouch/services/cache/standard"
 	nullmetrics "github.com/attestantio/vouch/services/metrics/null"
 	"github.com/rs/zerolog"
@@ -22,30 +25,63 @@ import (
 	"verifharness/mocks"
 )
 
+// One lookup of a group of overlapping lookups.  The goroutine enters BlockRootToSlot at fake
+// instant Start (ms after the group's begin); if it has to fetch, the header provider answers at
+// Start+Delay with Fetch (nil = error of kind ErrKind).  ErrKind "caller-deadline": the caller's
+// own context has a deadline of Delay; the provider would answer much later and honours the
+// cancellation, so the fetch fails at Start+Delay with the context's error.
+type PLookup struct {
+	ID      uint64  `json:"id"`
+	Root    uint64  `json:"root"`
+	Start   uint64  `json:"start"`
+	Delay   uint64  `json:"delay"`
+	Fetch   *uint64 `json:"fetch,omitempty"`
+	ErrKind string  `json:"errkind,omitempty"`
+}
+
+// Something else that happens while the lookups of a group are in flight.
+type PExtra struct {
+	At    uint64 `json:"at"`
+	Kind  string `json:"kind"` // event | set | clean
+	Root  uint64 `json:"root,omitempty"`
+	Slot  uint64 `json:"slot,omitempty"`
+	Epoch uint64 `json:"epoch,omitempty"`
+}
+
 type Op struct {
-	Kind  string  `json:"kind"` // event | lookup | clean
+	Kind  string  `json:"kind"` // event | set | lookup | clean | head | par
 	Root  uint64  `json:"root,omitempty"`
 	Slot  uint64  `json:"slot,omitempty"`
 	Fetch *uint64 `json:"fetch,omitempty"` // lookup: what the node answers (nil = error)
 	Epoch uint64  `json:"epoch,omitempty"` // clean
 	// lookup with a failing fetch: the kind of error the node/client reports, and whether the
 	// caller's own context is already cancelled.  The property says: always an error, never a slot.
-	ErrKind   string `json:"errkind,omitempty"` // plain | canceled | deadline | wrapped-deadline | api404 | api503
+	ErrKind   string `json:"errkind,omitempty"`   // plain | canceled | deadline | wrapped-deadline | api404 | api503
 	CallerCtx string `json:"callerctx,omitempty"` // live (default) | cancelled
+	// head: the head event carries Root and Slot; the signed block provider answers the block of
+	// that root: slot Slot, parent root Parent, of fork Version -- or fails (BlockFail).
+	Parent    uint64 `json:"parent,omitempty"`
+	Version   string `json:"version,omitempty"` // phase0 | altair | bellatrix | capella | deneb
+	BlockFail bool   `json:"blockfail,omitempty"`
+	// par
+	Lookups []PLookup `json:"lookups,omitempty"`
+	Extras  []PExtra  `json:"extras,omitempty"`
+}
+
+// What the node answers for block "head" while the service is constructed (nil = error).
+type StartHead struct {
+	Root    uint64 `json:"root"`
+	Slot    uint64 `json:"slot"`
+	Parent  uint64 `json:"parent"`
+	Version string `json:"version"`
 }
 
 type History struct {
-	SPE   uint64            `json:"spe"`
-	Chain map[uint64]uint64 `json:"chain"`
-	Ops   []Op              `json:"ops"`
-	Tags  []string          `json:"tags,omitempty"`
-}
-
-// scripted header provider: answers the next lookup with what the op says.
-type headers struct {
-	next    *uint64
-	errKind string
-	used    bool
+	SPE       uint64            `json:"spe"`
+	Chain     map[uint64]uint64 `json:"chain"`
+	StartHead *StartHead        `json:"starthead,omitempty"`
+	Ops       []Op              `json:"ops"`
+	Tags      []string          `json:"tags,omitempty"`
 }
 
 func failure(kind string) error {
@@ -67,19 +103,6 @@ func failure(kind string) error {
 	}
 }
 
-func (h *headers) BeaconBlockHeader(_ context.Context, opts *api.BeaconBlockHeaderOpts) (*api.Response[*apiv1.BeaconBlockHeader], error) {
-	h.used = true
-	if h.next == nil {
-		return nil, failure(h.errKind)
-	}
-	return &api.Response[*apiv1.BeaconBlockHeader]{
-		Data: &apiv1.BeaconBlockHeader{
-			Header: &phase0.SignedBeaconBlockHeader{Message: &phase0.BeaconBlockHeader{Slot: phase0.Slot(*h.next)}},
-		},
-		Metadata: map[string]any{},
-	}, nil
-}
-
 func rootOf(r uint64) phase0.Root {
 	var root phase0.Root
 	for i := 0; i < 8; i++ {
@@ -88,67 +111,202 @@ func rootOf(r uint64) phase0.Root {
 	return root
 }
 
-func gen(r *Rand) History {
-	h := History{SPE: uint64(r.Range(1, 32)), Chain: map[uint64]uint64{}}
-	nroots := r.Range(1, 8)
-	// Current epoch region: most histories live beyond epoch 64 so that cleaning bites.
-	baseEpoch := uint64(r.Range(0, 200))
-	if r.Chance(1, 10) {
-		baseEpoch = uint64(r.Range(0, 70))
+// ---------------------------------------------------------------------------------------------
+// scripted header provider.  Sequential lookups: answers the next lookup with what the op says.
+// Lookups of a group: the goroutine's script travels in the context (falling back on the oldest
+// unanswered lookup of that root if an implementation drops the context's values); the answer
+// comes after the scripted fake delay unless the request context ends first.
+
+type parKey struct{}
+
+type parLookup struct {
+	PLookup
+	called bool
+}
+
+type headers struct {
+	mu      sync.Mutex
+	next    *uint64
+	errKind string
+	used    bool
+	group   []*parLookup // lookups of the group in flight, in order of their start
+}
+
+func headerResponse(slot uint64) *api.Response[*apiv1.BeaconBlockHeader] {
+	return &api.Response[*apiv1.BeaconBlockHeader]{
+		Data: &apiv1.BeaconBlockHeader{
+			Header: &phase0.SignedBeaconBlockHeader{Message: &phase0.BeaconBlockHeader{Slot: phase0.Slot(slot)}},
+		},
+		Metadata: map[string]any{},
 	}
-	for i := 1; i <= nroots; i++ {
-		// slots spread around the retention edge of baseEpoch
-		var e uint64
-		switch r.Intn(4) {
-		case 0:
-			e = baseEpoch
-		case 1:
-			if baseEpoch >= 64 {
-				e = baseEpoch - 64 + uint64(r.Intn(3))
-			}
-		case 2:
-			if baseEpoch >= 66 {
-				e = baseEpoch - 66 + uint64(r.Intn(3))
-			}
-		default:
-			e = uint64(r.Intn(int(baseEpoch) + 2))
-		}
-		off := uint64(r.Intn(int(h.SPE)))
-		if r.Chance(1, 3) {
-			off = 0
-		}
-		if r.Chance(1, 12) {
-			e = baseEpoch + uint64(r.Range(1, 3)) // a block of a later epoch than the clock's (clock skew)
-		}
-		h.Chain[uint64(i)] = e*h.SPE + off
-	}
-	nops := r.Range(5, 60)
-	for i := 0; i < nops; i++ {
-		root := uint64(r.Range(1, nroots))
-		switch k := r.Intn(10); {
-		case k < 3:
-			h.Ops = append(h.Ops, Op{Kind: "event", Root: root, Slot: h.Chain[root]})
-		case k < 8:
-			op := Op{Kind: "lookup", Root: root}
-			if r.Chance(2, 3) {
-				s := h.Chain[root]
-				op.Fetch = &s
-			} else {
-				op.ErrKind = []string{"plain", "plain", "canceled", "deadline", "wrapped-deadline", "wrapped-canceled", "api404", "api503"}[r.Intn(8)]
-				if r.Chance(1, 5) {
-					op.CallerCtx = "cancelled"
+}
+
+func (h *headers) BeaconBlockHeader(ctx context.Context, opts *api.BeaconBlockHeaderOpts) (*api.Response[*apiv1.BeaconBlockHeader], error) {
+	h.mu.Lock()
+	var pl *parLookup
+	if h.group != nil {
+		if v, ok := ctx.Value(parKey{}).(*parLookup); ok && !v.called {
+			pl = v
+		} else {
+			for _, c := range h.group {
+				if !c.called && rootOf(c.Root).String() == opts.Block {
+					pl = c
+					break
 				}
 			}
-			h.Ops = append(h.Ops, op)
-		default:
-			e := baseEpoch + uint64(r.Intn(4))
-			if r.Chance(1, 6) {
-				e = uint64(r.Range(60, 68))
-			}
-			h.Ops = append(h.Ops, Op{Kind: "clean", Epoch: e})
 		}
 	}
-	return h
+	if pl == nil {
+		h.used = true
+		next, kind := h.next, h.errKind
+		h.mu.Unlock()
+		if next == nil {
+			return nil, failure(kind)
+		}
+		return headerResponse(*next), nil
+	}
+	pl.called = true
+	h.mu.Unlock()
+
+	delay := time.Duration(pl.Delay) * time.Millisecond
+	if pl.ErrKind == "caller-deadline" {
+		delay += time.Second // the node is slow; the caller's deadline comes first
+	}
+	timer := time.NewTimer(delay)
+	defer timer.Stop()
+	select {
+	case <-timer.C:
+	case <-ctx.Done():
+		return nil, ctx.Err()
+	}
+	if pl.Fetch == nil {
+		return nil, failure(pl.ErrKind)
+	}
+	return headerResponse(*pl.Fetch), nil
+}
+
+// ---------------------------------------------------------------------------------------------
+// The run of one history.
+
+type answer struct {
+	id, root uint64
+	slot     uint64
+	err      bool
+}
+
+type micro struct {
+	at   uint64
+	term string
+	act  func() // what the main goroutine does at that instant (nil: a provider timer does it)
+}
+
+// the micro-events of a group in the order of their instants (which must be pairwise distinct)
+func microEvents(op Op, spe uint64) ([]micro, error) {
+	var ms []micro
+	for _, l := range op.Lookups {
+		if l.Delay == 0 {
+			return nil, fmt.Errorf("lookup %d: zero delay", l.ID)
+		}
+		ms = append(ms, micro{at: l.Start, term: App("PBegin", N(l.ID), N(l.Root))})
+		ms = append(ms, micro{at: l.Start + l.Delay, term: App("PEnd", N(l.ID), N(l.Root), OptN(l.Fetch))})
+	}
+	for _, x := range op.Extras {
+		switch x.Kind {
+		case "event", "set":
+			ms = append(ms, micro{at: x.At, term: App("PEvent", N(x.Root), N(x.Slot))})
+		case "clean":
+			ms = append(ms, micro{at: x.At, term: App("PClean", N(x.Epoch), N(spe))})
+		default:
+			return nil, fmt.Errorf("unknown extra %q", x.Kind)
+		}
+	}
+	sort.SliceStable(ms, func(i, j int) bool { return ms[i].at < ms[j].at })
+	for i := 1; i < len(ms); i++ {
+		if ms[i].at == ms[i-1].at {
+			return nil, fmt.Errorf("two micro-events at instant %d", ms[i].at)
+		}
+	}
+	return ms, nil
+}
+
+type env struct {
+	svc      *standardcache.Service
+	ct       *mocks.ChainTime
+	hp       *headers
+	bp       *blocks
+	block    func(*apiv1.Event)
+	head     func(*apiv1.Event)
+	cleanJob func(context.Context)
+}
+
+func blockEvent(root, slot uint64) *apiv1.Event {
+	return &apiv1.Event{Topic: "block", Data: &apiv1.BlockEvent{Slot: phase0.Slot(slot), Block: rootOf(root)}}
+}
+
+// runs one group inside the bubble; the answers in order of completion
+func (e *env) runPar(ctx context.Context, op Op) []answer {
+	type mainAct struct {
+		at  uint64
+		act func()
+	}
+	var (
+		mu      sync.Mutex
+		answers []answer
+		wg      sync.WaitGroup
+		acts    []mainAct
+	)
+	group := make([]*parLookup, 0, len(op.Lookups))
+	for _, l := range op.Lookups {
+		pl := &parLookup{PLookup: l}
+		group = append(group, pl)
+		acts = append(acts, mainAct{at: l.Start, act: func() {
+			wg.Add(1)
+			go func() {
+				defer wg.Done()
+				defer func() {
+					// a panic is that lookup's observed outcome: no answer
+					_ = recover()
+				}()
+				lctx := context.WithValue(ctx, parKey{}, pl)
+				if pl.ErrKind == "caller-deadline" {
+					c, cancel := context.WithTimeout(lctx, time.Duration(pl.Delay)*time.Millisecond)
+					defer cancel()
+					lctx = c
+				}
+				slot, err := e.svc.BlockRootToSlot(lctx, rootOf(pl.Root))
+				mu.Lock()
+				answers = append(answers, answer{id: pl.ID, root: pl.Root, slot: uint64(slot), err: err != nil})
+				mu.Unlock()
+			}()
+		}})
+	}
+	sort.SliceStable(group, func(i, j int) bool { return group[i].Start < group[j].Start })
+	for _, x := range op.Extras {
+		switch x.Kind {
+		case "event":
+			acts = append(acts, mainAct{at: x.At, act: func() { e.block(blockEvent(x.Root, x.Slot)) }})
+		case "set":
+			acts = append(acts, mainAct{at: x.At, act: func() { e.svc.SetBlockRootToSlot(rootOf(x.Root), phase0.Slot(x.Slot)) }})
+		case "clean":
+			acts = append(acts, mainAct{at: x.At, act: func() { e.ct.SetEpoch(x.Epoch); e.cleanJob(ctx) }})
+		}
+	}
+	sort.SliceStable(acts, func(i, j int) bool { return acts[i].at < acts[j].at })
+
+	e.hp.mu.Lock()
+	e.hp.group = group
+	e.hp.mu.Unlock()
+	begin := time.Now()
+	for _, a := range acts {
+		time.Sleep(time.Until(begin.Add(time.Duration(a.at) * time.Millisecond)))
+		a.act()
+		synctest.Wait()
+	}
+	wg.Wait()
+	e.hp.mu.Lock()
+	e.hp.group = nil
+	e.hp.mu.Unlock()
+	return answers
 }
 
 func runHistory(t *testing.T, h History) (outs []string, final [][2]uint64, nontrivial bool) {
@@ -157,13 +315,17 @@ func runHistory(t *testing.T, h History) (outs []string, final [][2]uint64, nont
 	ev := mocks.NewEventsProvider()
 	sched := mocks.NewRecScheduler()
 	hp := &headers{}
+	bp := &blocks{}
+	if h.StartHead != nil {
+		bp.head = &blockSpec{slot: h.StartHead.Slot, parent: h.StartHead.Parent, version: h.StartHead.Version}
+	}
 	svc, err := standardcache.New(ctx,
 		standardcache.WithLogLevel(zerolog.Disabled),
 		standardcache.WithMonitor(nullmetrics.New()),
 		standardcache.WithChainTime(ct),
 		standardcache.WithScheduler(sched),
 		standardcache.WithEventsProvider(ev),
-		standardcache.WithSignedBeaconBlockProvider(mock.NewErroringSignedBeaconBlockProvider()),
+		standardcache.WithSignedBeaconBlockProvider(bp),
 		standardcache.WithBeaconBlockHeadersProvider(hp),
 	)
 	if err != nil {
@@ -172,16 +334,40 @@ func runHistory(t *testing.T, h History) (outs []string, final [][2]uint64, nont
 	if len(ev.Handlers["block"]) != 1 {
 		t.Fatalf("expected one block handler, got %d", len(ev.Handlers["block"]))
 	}
+	if len(ev.Handlers["head"]) != 1 {
+		t.Fatalf("expected one head handler, got %d", len(ev.Handlers["head"]))
+	}
 	cleanJob, ok := sched.Get("Clean block root to slot cache")
 	if !ok {
 		t.Fatalf("clean job not scheduled")
 	}
+	e := &env{svc: svc, ct: ct, hp: hp, bp: bp, block: ev.Handlers["block"][0], head: ev.Handlers["head"][0], cleanJob: cleanJob.Func}
+
 	miss, hit := false, false
-	for _, op := range h.Ops {
+	// one op; a panic of the implementation is that op's observed outcome
+	do := func(op Op) (out string) {
+		defer func() {
+			if r := recover(); r != nil {
+				out = "(OMany [])" // agrees with no model output of a sequential op, and violates P_b
+				if op.Kind == "par" {
+					out = "OErr"
+				}
+			}
+		}()
 		switch op.Kind {
 		case "event":
-			ev.Handlers["block"][0](&apiv1.Event{Topic: "block", Data: &apiv1.BlockEvent{Slot: phase0.Slot(op.Slot), Block: rootOf(op.Root)}})
-			outs = append(outs, "ONone")
+			e.block(blockEvent(op.Root, op.Slot))
+			return "ONone"
+		case "set":
+			svc.SetBlockRootToSlot(rootOf(op.Root), phase0.Slot(op.Slot))
+			return "ONone"
+		case "head":
+			bp.next = nil
+			if !op.BlockFail {
+				bp.next = &blockSpec{slot: op.Slot, parent: op.Parent, version: op.Version}
+			}
+			e.head(&apiv1.Event{Topic: "head", Data: &apiv1.HeadEvent{Slot: phase0.Slot(op.Slot), Block: rootOf(op.Root)}})
+			return "ONone"
 		case "lookup":
 			hp.next, hp.errKind, hp.used = op.Fetch, op.ErrKind, false
 			lctx := ctx
@@ -191,22 +377,38 @@ func runHistory(t *testing.T, h History) (outs []string, final [][2]uint64, nont
 				lctx = c
 			}
 			slot, err := svc.BlockRootToSlot(lctx, rootOf(op.Root))
-			if err != nil {
-				outs = append(outs, "OErr")
-			} else {
-				outs = append(outs, App("OSlot", N(uint64(slot))))
-			}
 			if hp.used && op.Fetch != nil {
 				miss = true
 			}
 			if !hp.used {
 				hit = true
 			}
+			if err != nil {
+				return "OErr"
+			}
+			return App("OSlot", N(uint64(slot)))
 		case "clean":
 			ct.SetEpoch(op.Epoch)
-			cleanJob.Func(ctx)
-			outs = append(outs, "ONone")
+			e.cleanJob(ctx)
+			return "ONone"
+		case "par":
+			answers := e.runPar(ctx, op)
+			sort.SliceStable(answers, func(i, j int) bool { return answers[i].id < answers[j].id })
+			items := make([]string, 0, len(answers))
+			for _, a := range answers {
+				res := None()
+				if !a.err {
+					res = Some(N(a.slot))
+				}
+				items = append(items, "("+N(a.id)+", "+N(a.root)+", "+res+")")
+			}
+			return App("OMany", List(items))
 		}
+		t.Fatalf("unknown op kind %q", op.Kind)
+		return ""
+	}
+	for _, op := range h.Ops {
+		outs = append(outs, do(op))
 	}
 	// Read the final map through the public API with a failing fetcher: an error means absent.
 	roots := make([]uint64, 0, len(h.Chain))
@@ -223,16 +425,32 @@ func runHistory(t *testing.T, h History) (outs []string, final [][2]uint64, nont
 	return outs, final, miss && hit
 }
 
-func term(id uint64, h History, outs []string, final [][2]uint64) string {
+func term(t *testing.T, id uint64, h History, outs []string, final [][2]uint64) string {
 	ops := make([]string, 0, len(h.Ops))
 	for _, op := range h.Ops {
 		switch op.Kind {
-		case "event":
+		case "event", "set":
 			ops = append(ops, App("Event", N(op.Root), N(op.Slot)))
 		case "lookup":
 			ops = append(ops, App("Lookup", N(op.Root), OptN(op.Fetch)))
 		case "clean":
 			ops = append(ops, App("Clean", N(op.Epoch), N(h.SPE)))
+		case "head":
+			blk := None()
+			if !op.BlockFail {
+				blk = Some(Pair(N(op.Parent), N(op.Slot)))
+			}
+			ops = append(ops, App("Head", N(op.Root), N(op.Slot), blk))
+		case "par":
+			ms, err := microEvents(op, h.SPE)
+			if err != nil {
+				t.Fatalf("case %d: %v", id, err)
+			}
+			evs := make([]string, 0, len(ms))
+			for _, m := range ms {
+				evs = append(evs, m.term)
+			}
+			ops = append(ops, App("Par", List(evs)))
 		}
 	}
 	fin := make([]string, 0, len(final))
@@ -253,7 +471,7 @@ func term(id uint64, h History, outs []string, final [][2]uint64) string {
 
 func TestC18(t *testing.T) {
 	col := NewCollector("C18", "Check.C18",
-		"histories of 5-60 ops (block events, lookups with scripted fetch outcome, cleans) over 1-8 roots; non-trivial = contains both a successful miss and a hit; distinct by full history text")
+		"histories of 5-60 ops (block events, head events, lookups with scripted fetch outcome, groups of 2-6 overlapping lookups, cleans) over 1-8 roots; non-trivial = contains both a successful miss and a hit (sequential lookups); distinct by full history text")
 	n := EnvInt("VERIF_N", 1000)
 	var hs []History
 	for _, h := range LoadInputs[History]("C18") {
@@ -265,16 +483,40 @@ func TestC18(t *testing.T) {
 		hs = append(hs, gen(rng.Fork()))
 	}
 	for _, h := range hs {
-		outs, final, nt := runHistory(t, h)
+		for _, op := range h.Ops {
+			if op.Kind == "par" {
+				if _, err := microEvents(op, h.SPE); err != nil {
+					t.Fatalf("malformed group: %v", err)
+				}
+			}
+		}
+		var (
+			outs  []string
+			final [][2]uint64
+			nt    bool
+		)
+		// one bubble per history: fake time, deterministic order of the instants of a group
+		synctest.Test(t, func(t *testing.T) {
+			outs, final, nt = runHistory(t, h)
+		})
 		for _, op := range h.Ops {
 			col.Count("op:" + op.Kind)
 			if op.Kind == "lookup" && op.Fetch == nil {
 				col.Count("lookup:failing-fetch:" + op.ErrKind + ":" + op.CallerCtx)
 			}
+			if op.Kind == "head" {
+				col.Count("head:" + headFamily(h, op))
+			}
+			if op.Kind == "par" {
+				col.Count("par:" + parFamily(op))
+			}
+		}
+		if h.StartHead != nil {
+			col.Count("starthead")
 		}
 		col.Count(fmt.Sprintf("roots:%d", len(h.Chain)))
 		id := col.NextID()
-		col.Add(Case{Term: term(id, h, outs, final), Nontrivial: nt, Tags: h.Tags,
+		col.Add(Case{Term: term(t, id, h, outs, final), Nontrivial: nt, Tags: h.Tags,
 			Sample: map[string]any{"input": h, "observed": outs, "final": final}})
 	}
 	if err := col.Flush(); err != nil {
